@@ -24,7 +24,8 @@ EXPLANATION = (
     "is_vo_bit_set_inner yields Some only where VO_BIT.is_mapped(addr) held, only if the loaded bit of addr equals 1, and the reference is built from addr itself. INTERNAL: the generic "
     "search starts at the pointer with the caller's limit, is attempted only for a mapped pointer, and its hit is returned only through is_internal_ptr_from_vo_bit(hit, ptr), which "
     "returns Some(obj) exactly when ptr < obj.to_object_start() + current_size(obj). NO-PANIC: none of these bodies contains a live diverging block (LargeObjectSpace's "
-    "unreachable! after a non-zero word is the one frozen exception)."
+    "unreachable! after a non-zero word is the one frozen exception). SCAN-MAPPED: in the backwards byte/word scan behind find_prev_non_zero_value every path from the "
+    "cursor step to a load passes the mapped-grain test (cur < mapped_grain => cur.is_mapped(), else UnmappedMetadata), so a foreign address below the first object never faults."
 )
 TECHNIQUE = ("static analysis: return-value tables (origin tree of every returned value with the control-dependence guards of its return site) over rustc MIR with resolved callees; sibling "
              "agreement over all impls of policy::sft::SFT taken from rustc's impl table; diverging-block census on the abort-free CFG")
@@ -35,7 +36,42 @@ NONE = "option::Option::None{}"
 
 
 def _rows(f):
-    return [(show(strip(t)), [(show(p.tree), p.val) for p in g]) for b, t, g in ret_table(f)]
+    """Return table as strings, with the `?` desugaring folded (simp / norm_guard) and `c.then_some(v)` expanded into its two rows."""
+    out = []
+    for b, t, g in ret_table(f):
+        t = simp(t)
+        gs = []
+        for p in g:
+            gt, gv = norm_guard(p)
+            gs.append((show(gt), gv))
+        if t and t[0] == "call" and isinstance(t[2] or t[1], str) and last_seg(t[2] or t[1]) == "then_some" and len(t[3]) == 2:
+            c, v = show(simp(t[3][0])), show(simp(t[3][1]))
+            out.append(("option::Option::Some{%s}" % v, gs + [(c, True)]))
+            out.append((NONE, gs + [(c, False)]))
+        else:
+            out.append((show(t), gs))
+    return out
+
+
+def _selected_by_is_vo_addr(F, f):
+    """The candidate handed to is_internal_ptr_from_vo_bit is the result of `iter.find(|a| is_vo_addr(*a))` (the for-loop with an
+    early return written as an iterator adaptor): every such call's first argument contains a `find` whose predicate closure
+    returns is_vo_addr of its own argument."""
+    cs = [c for c in live_calls(f) if c.name == "is_internal_ptr_from_vo_bit"]
+    if not cs:
+        return False
+    for c in cs:
+        cand = simp(f.flow.arg_tree(c, 0))
+        okc = False
+        for s in walk(cand):
+            if s and s[0] == "call" and isinstance(s[2] or s[1], str) and last_seg(s[2] or s[1]) == "find" and len(s[3]) == 2:
+                cl = [x for x in walk(s[3][1]) if x and x[0] == "agg" and x[1][0] == "closure" and x[1][1] in F.fns]
+                if len(cl) == 1:
+                    rts = [show(simp(t2)) for _, t2 in F.fns[cl[0][1][1]].flow.return_trees()]
+                    okc = bool(rts) and all(re.match(r"^vo_bit::is_vo_addr\(\**arg2\)$", r) for r in rts)
+        if not okc:
+            return False
+    return True
 
 
 def _diverging(f):
@@ -124,7 +160,10 @@ def run(ctx, F):
                 ok = bool(some)
                 for v, g in some:
                     m = re.match(r"^vo_bit::is_internal_ptr_from_vo_bit\((.*), arg2\)$", v)
-                    ok = ok and m is not None and any(s == "vo_bit::is_vo_addr(%s)" % m.group(1) and val is True for s, val in g)
+                    tested = m is not None and any(s == "vo_bit::is_vo_addr(%s)" % m.group(1) and val is True for s, val in g)
+                    if m is not None and not tested:
+                        tested = _selected_by_is_vo_addr(F, f)
+                    ok = ok and tested
                     ok = ok and any("saturating_sub(arg2, arg3)" in s and s.startswith("PartialOrd::ge(") and val is True for s, val in g)
                     ok = ok and any(s.startswith("(vo_bit::get_raw_vo_bit_word(") and " Ne 0)" in s and val is True for s, val in g)
             else:
@@ -189,6 +228,33 @@ def run(ctx, F):
                   expected="None if !start.is_mapped(); is_internal_ptr_from_vo_bit(find_prev_non_zero_value(start, limit)?, start)", found=str(rows)[:400], where=where(f), key="C08.internal|search")
         ctx.judge(not _diverging(f), "C08.no-panic", "vo_bit::find_object_from_internal_pointer has no diverging block", expected="no panic / assertion in the compiled body", found=str(_diverging(f)), where=where(f),
                   key="C08.no-panic|search")
+    # ---- C08.scan-mapped: the backwards byte/word scan behind find_prev_non_zero_value never reads a metadata address it has not
+    # tested (or inherited from the same mapping grain) as mapped: on every path from the cursor step to a load the
+    # `cur < mapped_grain` test is passed, and no load sits on the is_mapped()==false side.
+    sf = F.fn("util::metadata::side_metadata::helpers::find_last_non_zero_bit_in_metadata_bytes")
+    steps = [c for c in live_calls(sf) if c.name in ("sub_assign", "sub") and "Address" in (c.res or c.q or "")]
+    chks = [c for c in live_calls(sf) if c.name == "lt" and "Address::MAX" in show(simp(sf.flow.arg_tree(c, 1)))]
+    loads = [c for c in live_calls(sf) if c.name == "load"]
+    im = [c for c in live_calls(sf) if c.name == "is_mapped"]
+    oks = len(steps) >= 1 and len(chks) == 1 and len(loads) >= 1 and len(im) == 1
+    why = "cursor steps=%d grain tests=%d loads=%d is_mapped=%d" % (len(steps), len(chks), len(loads), len(im))
+    if oks:
+        for s_ in steps:
+            nxt = sf.blocks[s_.bb]["t"].get("t")
+            if nxt == chks[0].bb:
+                continue
+            reach =sf.cfg.reachable_from(nxt, avoid={chks[0].bb}) | {nxt}
+            bad = [l.line for l in loads if l.bb in reach and l.bb != chks[0].bb]
+            if bad:
+                oks, why = False, "load at line %s reachable from the cursor step at line %s without passing the mapped-grain test" % (bad, s_.line)
+        gim = guard_strs(sf, im[0].bb)
+        if oks and not (any(x.startswith("PartialOrd::lt(") and x.endswith("== True") for x in gim) and all(x.startswith("PartialOrd::lt(") or x.startswith("PartialOrd::gt(") for x in gim)):
+            oks, why = False, "is_mapped is not evaluated exactly when cur < mapped_grain (inside the loop): dominating guards %s" % gim
+        if oks and any(guard_find(sf, l.bb, r"is_mapped", False) for l in loads):
+            oks, why = False, "a load is reachable on the is_mapped()==false side"
+    ctx.judge(oks, "C08.scan-mapped", "the backwards metadata scan loads only addresses known to be mapped", expected="step the cursor, then test cur < mapped_grain => cur.is_mapped() (else UnmappedMetadata), then load",
+              found=why, where=where(sf), key="C08.scan-mapped|prev")
+
     cands = [q for q in F.fns if re.match(r"^%sis_internal_ptr_from_vo_bit(::<.*>)?$" % re.escape(VO), q)]
     ctx.floor("C08.internal", len(cands), 1, "is_internal_ptr_from_vo_bit bodies")
     TEST = "vo_bit::is_internal_ptr(vo_bit::get_object_ref_for_vo_addr(arg1), arg2)"
